@@ -15,8 +15,9 @@ from vfw.runner import Stats, Violation, hyp_search
 PROPERTY = 'C20'
 LEVEL = 'exploration'
 RULE = ("cases = (max_bytes, backup_count, time_format?, pre-existing "
-        "active/backup files, sequence of text writes as str or utf-8 bytes "
-        "and close/open pairs); exhaustive sub-run enumerates every length "
+        "active/backup files, file encoding utf-8 or latin-1 (the daemon's "
+        "locale), sequence of text writes as str or utf-8 bytes - ASCII, any "
+        "Unicode, now and then a lone surrogate - and close/open pairs); exhaustive sub-run enumerates every length "
         "vector for small bounds, the random sub-run draws sizes around "
         "max_bytes.  Non-trivial = the sequence caused >= 2 rollovers; "
         "distinct by hash of the whole case.")
@@ -26,6 +27,10 @@ ASSUMPTIONS = [
     "size clause is only asserted where every write is shorter than "
     "max_bytes, is ASCII (bytes == characters) and no time_format is set",
     "datetime.now is pinned through the documented FileStream.now seam",
+    "a latin-1 locale is emulated by a FileStream subclass whose _open() "
+    "passes encoding='latin-1'; where the file's encoding cannot represent "
+    "the text (or the text holds a lone surrogate) contents are compared "
+    "after mapping every character beyond U+00FF to '?' on both sides",
 ]
 
 UTF8 = locale.getpreferredencoding(False).lower().replace('-', '') == 'utf8'
@@ -37,8 +42,23 @@ def _read(path):
         return f.read()
 
 
+def _lossy(x):
+    return x.encode('latin-1', 'replace').decode('latin-1')
+
+
 def execute(case):
     from circus.stream.file_stream import FileStream
+    enc = case.get("encoding") or 'utf8'
+    if case.get("encoding"):
+        class Stream(FileStream):
+            def _open(self):
+                return open(self._filename, 'a+', encoding=enc)
+    else:
+        Stream = FileStream
+    lossy = bool(case.get("encoding")) or any(
+        op[0] == 'w' and any(0xD800 <= ord(c) <= 0xDFFF for c in op[1])
+        for op in case["ops"])
+    norm = _lossy if lossy else (lambda x: x)
     d = tempfile.mkdtemp(prefix='c20-', dir=os.environ.get('VERIF_SCRATCH'))
     viols = []
     rollovers = 0
@@ -47,17 +67,17 @@ def execute(case):
         mb = case["max_bytes"]
         bc = case["backup_count"]
         tf = case.get("time_format")
-        history = b''
+        history = ''
         pre = case.get("pre") or {}
         for idx in sorted((int(i) for i in pre), reverse=True):
             data = pre[str(idx)].encode('utf8')
-            history += data
+            history += pre[str(idx)]
             with open(fn if idx == 0 else '%s.%d' % (fn, idx), 'wb') as f:
                 f.write(data)
         kw = {}
         if mb:
             kw = dict(max_bytes=mb, backup_count=bc)
-        stream = FileStream(filename=fn, time_format=tf, **kw)
+        stream = Stream(filename=fn, time_format=tf, **kw)
         stream.now = lambda: PINNED
         prefix = None
         if tf is not None:
@@ -72,11 +92,11 @@ def execute(case):
                 continue
             text = op[1]
             raw = text.encode('utf8') if op[2] == 'b' else text
-            if len(raw) >= mb or len(text.encode('utf8')) != len(text):
+            if len(raw) >= mb or not text.isascii():
                 small = False
             stream({'data': raw, 'pid': 4242, 'name': 'stdout'})
             if tf is None:
-                written = text.encode('utf8')
+                written = norm(text)
                 history += written
             else:
                 exp_lines.extend(text.rstrip('\n').split('\n'))
@@ -99,8 +119,9 @@ def execute(case):
                 concat = b''.join(_read('%s.%d' % (fn, i))
                                   for i in sorted(backups, reverse=True))
                 concat += active
+                concat = norm(concat.decode(enc))
                 if tf is None:
-                    if not history.endswith(concat):
+                    if not norm(history).endswith(concat):
                         viols.append(Violation(
                             'C20:tail', 'backups+active %r is not a '
                             'contiguous tail of everything written %r'
@@ -119,13 +140,13 @@ def execute(case):
                     viols.append(Violation(
                         'C20:append', 'backup files %r without rotation '
                         'settings' % backups))
-                if tf is None and active != history:
+                if tf is None and norm(active.decode(enc)) != norm(history):
                     viols.append(Violation(
                         'C20:append', 'file %r is not an exact append-only '
                         'copy of %r' % (active[-80:], history[-80:])))
-                concat = active
+                concat = norm(active.decode(enc))
             if tf is not None:
-                got = concat.decode('utf8').split('\n')
+                got = concat.split('\n')
                 if got and got[-1] == '':
                     got = got[:-1]
                 # pre-existing content carries no prefix: only look at the
@@ -141,6 +162,7 @@ def execute(case):
                     stripped = [ln[len(prefix):] for ln in mine]
                     if pre_lines == 0 or not mb:
                         want = exp_lines[-len(stripped):] if stripped else []
+                        want = [norm(x) for x in want]
                         if stripped != want:
                             viols.append(Violation(
                                 'C20:tail', 'prefixed lines %r are not the '
@@ -160,6 +182,10 @@ def execute(case):
         classes.append('reopen')
     if not mb:
         classes.append('no_rotation')
+    if lossy:
+        classes.append('unrepresentable-text' if any(
+            op[0] == 'w' and _lossy(op[1]) != op[1] for op in case["ops"])
+            else 'latin-1-file')
     return viols, rollovers >= 2, classes
 
 
@@ -219,6 +245,8 @@ def _strategy():
                          blacklist_characters='\r\x00')
     chars = st.one_of(alpha, st.just('\n'), wide) if UTF8 else \
         st.one_of(alpha, st.just('\n'))
+    odd = st.one_of(alpha, alpha, st.just('\n'),
+                    st.sampled_from(['\xe9', '\u20ac', '\u0142']))
 
     @st.composite
     def case(draw):
@@ -226,6 +254,7 @@ def _strategy():
         mb = draw(st.integers(1, 64)) if rot else 0
         bc = draw(st.integers(1, 4)) if rot else 0
         tf = draw(st.sampled_from([None, None, None, '%H:%M', '%Y-%m-%d']))
+        encoding = draw(st.sampled_from([None, None, None, 'latin-1']))
         pre = {}
         if draw(st.booleans()):
             for i in range(0, bc + 1):
@@ -246,13 +275,25 @@ def _strategy():
                 [0, 1, max(mb - 1, 0), mb, mb + 1, max(mb // 2, 1), 3]))
             size = max(0, around + draw(st.integers(-1, 1)))
             size = min(size, 80)
-            if draw(st.integers(0, 3)) == 0:
+            kind = draw(st.integers(0, 7))
+            form = draw(st.sampled_from(["s", "b"]))
+            if kind == 0 or (encoding and kind <= 2):
+                text = draw(st.text(odd, min_size=0, max_size=max(size, 3)))
+                if UTF8 and not encoding and draw(st.integers(0, 2)) == 0:
+                    # what surrogateescape yields for an undecodable byte
+                    pos = draw(st.integers(0, len(text)))
+                    text = text[:pos] + '\udc80' + text[pos:]
+                    form = "s"
+            elif kind == 1:
                 text = draw(st.text(chars, min_size=0, max_size=size))
             else:
                 text = draw(st.text(alpha, min_size=size, max_size=size))
-            ops.append(["w", text, draw(st.sampled_from(["s", "b"]))])
-        return {"max_bytes": mb, "backup_count": bc, "time_format": tf,
-                "pre": pre or None, "ops": ops}
+            ops.append(["w", text, form])
+        c = {"max_bytes": mb, "backup_count": bc, "time_format": tf,
+             "pre": pre or None, "ops": ops}
+        if encoding:
+            c["encoding"] = encoding
+        return c
     return case()
 
 
